@@ -8,7 +8,9 @@
      type Query { a: Int  b(x: Int, l: [Int]): String  o: Obj  i: I  u: U  os: [Obj]  r(req: Int!): Int  d(nd: Int! = 1, nl: [Int!]): Int  is: [I] }
      type Obj implements I { a: Int  o: Obj  s: String  b(x: Int): String  c(p: Int = 1, q: Int = 5): Int }
      type Obj2 implements I { a: Int  s: Int!  n: String  c(p: Int = 2): Int }      interface I { a: Int  c(p: Int = 1): Int }
-     union U = Obj | Obj2     enum E { A B }     input In { x: Int = 3  y: Int!  n: In  l: [Int!] }     Query.f(in: In, ins: [In!]): Int
+     union U = Obj | Obj2     union U2 = Obj2     interface J { s: String }  (implemented by Obj only)     Query.j: J   Query.u2: U2
+     (partially overlapping abstract types: J ~ {Obj}, U2 ~ {Obj2}, so J and U2 never overlap while each overlaps I and U)
+     enum E { A B }     input In { x: Int = 3  y: Int!  n: In  l: [Int!] }     Query.f(in: In, ins: [In!]): Int
      type Mutation { m(x: Int): Int  o: Obj }     type Subscription { s1: Int  s2(x: Int): Int  o: Obj }
      directives: @skip(if: Boolean!) @include(if: Boolean!) on fields, spreads, inline fragments
    Document: [defs |-> seq of  [k |-> "op", name, op, vars (seq of [name, type, def: value | [k |-> "none"]]), sel]  |  [k |-> "frag", name, on, sel]]
@@ -25,12 +27,12 @@ Unwrap(t) == IF t.k = "named" THEN t.n ELSE Unwrap(t.of)
 F(n, t, args) == [name |-> n, type |-> t, args |-> args]
 A(n, t) == [name |-> n, type |-> t, hasDef |-> FALSE]
 D(n, t) == [name |-> n, type |-> t, hasDef |-> TRUE]
-Kind == [Query |-> "object", Mutation |-> "object", Subscription |-> "object", In |-> "input", Obj |-> "object", Obj2 |-> "object", I |-> "interface", U |-> "union",
+Kind == [J |-> "interface", U2 |-> "union", Query |-> "object", Mutation |-> "object", Subscription |-> "object", In |-> "input", Obj |-> "object", Obj2 |-> "object", I |-> "interface", U |-> "union",
          Int |-> "scalar", String |-> "scalar", Boolean |-> "scalar", ID |-> "scalar", Float |-> "scalar", E |-> "enum"]
 Fields == [Query |-> << F("a", Named("Int"), <<>>), F("b", Named("String"), <<A("x", Named("Int")), A("l", ListOf(Named("Int")))>>),
                         F("o", Named("Obj"), <<>>), F("i", Named("I"), <<>>), F("u", Named("U"), <<>>), F("os", ListOf(Named("Obj")), <<>>),
                         F("r", Named("Int"), <<A("req", NN(Named("Int")))>>),
-                        F("d", Named("Int"), <<D("nd", NN(Named("Int"))), A("nl", ListOf(NN(Named("Int"))))>>), F("is", ListOf(Named("I")), <<>>),
+                        F("d", Named("Int"), <<D("nd", NN(Named("Int"))), A("nl", ListOf(NN(Named("Int"))))>>), F("is", ListOf(Named("I")), <<>>), F("j", Named("J"), <<>>), F("u2", Named("U2"), <<>>),
                         F("f", Named("Int"), <<A("in", Named("In")), A("ins", ListOf(NN(Named("In"))))>>) >>,
            Mutation |-> << F("m", Named("Int"), <<A("x", Named("Int"))>>), F("o", Named("Obj"), <<>>) >>,
            Subscription |-> << F("s1", Named("Int"), <<>>), F("s2", Named("Int"), <<A("x", Named("Int"))>>), F("o", Named("Obj"), <<>>) >>,
@@ -39,8 +41,9 @@ Fields == [Query |-> << F("a", Named("Int"), <<>>), F("b", Named("String"), <<A(
                         F("c", Named("Int"), <<D("p", Named("Int")), D("q", Named("Int"))>>) >>,
            Obj2  |-> << F("a", Named("Int"), <<>>), F("s", NN(Named("Int")), <<>>), F("n", Named("String"), <<>>), F("c", Named("Int"), <<D("p", Named("Int"))>>) >>,
            I     |-> << F("a", Named("Int"), <<>>), F("c", Named("Int"), <<D("p", Named("Int"))>>) >>,
+           J     |-> << F("s", Named("String"), <<>>) >>, U2 |-> <<>>,
            U     |-> <<>>, Int |-> <<>>, String |-> <<>>, Boolean |-> <<>>, ID |-> <<>>, Float |-> <<>>, E |-> <<>>]
-Possible == [I |-> {"Obj", "Obj2"}, U |-> {"Obj", "Obj2"}, Query |-> {"Query"}, Mutation |-> {"Mutation"}, Subscription |-> {"Subscription"}, Obj |-> {"Obj"}, Obj2 |-> {"Obj2"}]
+Possible == [J |-> {"Obj"}, U2 |-> {"Obj2"}, I |-> {"Obj", "Obj2"}, U |-> {"Obj", "Obj2"}, Query |-> {"Query"}, Mutation |-> {"Mutation"}, Subscription |-> {"Subscription"}, Obj |-> {"Obj"}, Obj2 |-> {"Obj2"}]
 InFields == << D("x", Named("Int")), A("y", NN(Named("Int"))), A("n", Named("In")), A("l", ListOf(NN(Named("Int")))) >>
 InField(n) == LET idx == {k \in 1..Len(InFields) : InFields[k].name = n}
               IN IF idx = {} THEN [name |-> "", type |-> Named(""), hasDef |-> FALSE] ELSE InFields[CHOOSE k \in idx : TRUE]
@@ -328,7 +331,7 @@ Shape(doc, sel, objType, conc, fuel) ==
             subsel == FlattenSeq([m \in 1..Len(group) |-> group[m].sel])
             tn == Unwrap(d.type)
             abstract == Known(tn) /\ Kind[tn] \in {"interface", "union"}
-            rt == IF abstract THEN conc ELSE tn
+            rt == IF abstract THEN (IF conc \in Possible[tn] THEN conc ELSE CHOOSE x \in Possible[tn] : TRUE) ELSE tn   \* J and U2 have one possible type
             rt2 == IF abstract THEN (IF conc = "Obj" THEN "Obj2" ELSE "Obj") ELSE tn     \* lists of abstract types alternate
             amb == \E m \in 1..Len(group) : group[m].name # f.name \/ ArgSet(group[m]) # ArgSet(f)
         IN IF ~HasDef(d) THEN [key |-> key, kind |-> "unknown", amb |-> amb, sub |-> <<>>, sub2 |-> <<>>]
